@@ -12,6 +12,8 @@ deriving DecidableEq, Repr, Inhabited
 
 abbrev M := Except Crash
 
+deriving instance DecidableEq for Except
+
 /-- What `_get_literal_value` can return.  `none` is Python's `None` ("not a literal").
 Sets and dicts are opaque: no check looks inside them. -/
 inductive PyVal where
